@@ -931,6 +931,10 @@ class Gen:
         self.kw('ADD')
         self.name_token('req', allow_quoted=False)
         self.emit('name', self.rng.choice(TYPE_POOL), 'req')
+        if self.rng.random() < 0.4:
+            # a call in a non-CREATE statement that carries the word TABLE
+            self.kw('DEFAULT')
+            self.call(0, 'req')
 
     def with_stmt(self, depth):
         rng = self.rng
